@@ -70,6 +70,9 @@ func (c *Coordinate) ToS2Point() s2.Point {
 }
 
 func CoordinatesFromLoop(loop *s2.Loop) []Coordinate {
+	if loop.NumVertices() == 0 {
+		return []Coordinate{}
+	}
 	coordinates := make([]Coordinate, loop.NumVertices()+1)
 	for i := range coordinates {
 		coordinates[i] = CoordinateFromS2Point(loop.Vertex(i % loop.NumVertices()))
@@ -80,6 +83,10 @@ func CoordinatesFromLoop(loop *s2.Loop) []Coordinate {
 func FromPolygon(polygon *s2.Polygon) Polygon {
 	coordinates := make(Polygon, polygon.NumLoops())
 	for i, loop := range polygon.Loops() {
+		if loop.NumVertices() == 0 {
+			coordinates[i] = []Coordinate{}
+			continue
+		}
 		coordinates[i] = make([]Coordinate, loop.NumVertices()+1)
 		if !loop.IsHole() {
 			for j := range coordinates[i] {
